@@ -47,14 +47,28 @@ def argv_of(cfg):
 
 
 def vary_case(rng, name):
+    """case variation of the ASCII letters only: for the other ISO-8859-1 letters Python's upper()/lower() are not inverse
+    (upper('ß') == 'SS'), and a name varied that way could legitimately be another tag"""
+    up = lambda c: c.upper() if c.isascii() else c
+    lo = lambda c: c.lower() if c.isascii() else c
     r = rng.random()
     if r < 0.5:
         return name
     if r < 0.7:
-        return name.upper()
+        return ''.join(map(up, name))
     if r < 0.9:
-        return name.lower()
-    return ''.join(c.upper() if rng.random() < 0.5 else c.lower() for c in name)
+        return ''.join(map(lo, name))
+    return ''.join(up(c) if rng.random() < 0.5 else lo(c) for c in name)
+
+
+# tag names that a caseless comparison broader than "lower case within ISO-8859-1" would wrongly identify with each other
+LATIN1_PAIRS = [('Maß', 'MASS'), ('Fluß.Soll', 'FLUSS.SOLL'), ('Straße', 'STRASSE')]
+
+
+def add_latin1_pair(rng, cfg, types=None):
+    a, b = rng.choice(LATIN1_PAIRS)
+    ta, tb = rng.sample(['DINT', 'INT', 'REAL', 'SINT'], 2)
+    return list(cfg) + [(a, ta, rng.choice([1, 4, 6]), None), (b, tb, rng.choice([1, 3, 5]), None)]
 
 
 def path_for(rng, cfg_entry, elem, numeric=None):
